@@ -599,7 +599,7 @@ type c18XB struct {
 	B      *ssa.BasicBlock
 	Lo, Hi int
 	Var    string
-	Bind   map[ssa.Value]c18XV // values of B with a known definition in this clone
+	Bind   map[ssa.Value]c18XV  // values of B with a known definition in this clone
 	BindAt map[ssa.Value]*c18XB // per binding: the node that supplied it (predecessor / return node)
 	Succs  []*c18XB
 	Kinds  []int
